@@ -20,7 +20,7 @@ Def(r)    == [def |-> TRUE, n |-> r.n, fs |-> r.fs]
 Util(un, ud) == IF ud = 0 THEN Def(Rat(<<>>, <<>>)) ELSE Def(Rat(LOfInt(un), <<ud>>))
 
 (* the two branches of GetBorrowAPRByAssetID, for base b and slopes s1, s2 *)
-BelowKink(un, ud, uopt) == un * 1000 < uopt * ud                      \* U < UOptimal
+BelowKink(un, ud, uopt) == un * 1000 <= uopt * ud                     \* U <= UOptimal (first branch at the kink)
 LeftBranch(un, ud, uopt, b, s1) ==                                     \* base + (U / Uopt) * slope1
   Def(Rat(LAdd(LMulSeq(LOfInt(b), <<ud, uopt>>), LMulSeq(LOfInt(un), <<1000, s1>>)), <<1000, ud, uopt>>))
 RightBranch(un, ud, uopt, b, s1, s2) ==                                \* base + slope1 + ((U - Uopt) / (1 - Uopt)) * slope2
